@@ -237,7 +237,7 @@ def fast_tours(g, init_state, want, max_len, rng):
                 order.append(v)
                 q.append(v)
     unc = collections.defaultdict(list)
-    for ei in sorted(want):
+    for ei in want:          # callers pass `want` in a canonical order
         unc[g.edges[ei][0]].append(ei)
     for l in unc.values():
         rng.shuffle(l)
